@@ -118,8 +118,16 @@ class Subst:
         self.name = name
 
 
+class SetOf:
+    """a TLA+ set whose elements are not hashable in Python (records, sequences)"""
+    def __init__(self, items):
+        self.items = list(items)
+
+
 def tla(v: Any) -> str:
     """Python value -> TLA+ expression text (for generated MC modules); negative ints allowed."""
+    if isinstance(v, SetOf):
+        return "{" + ", ".join(tla(x) for x in v.items) + "}"
     if isinstance(v, bool):
         return "TRUE" if v else "FALSE"
     if isinstance(v, int):
@@ -136,7 +144,7 @@ def tla(v: Any) -> str:
 
 
 def _complex(v: Any) -> bool:
-    if isinstance(v, (list, tuple, dict)):
+    if isinstance(v, (list, tuple, dict, SetOf)):
         return True
     if isinstance(v, (set, frozenset)):
         return any(_complex(x) or (isinstance(x, int) and not isinstance(x, bool) and x < 0) for x in v)
